@@ -11,7 +11,8 @@
 (***************************************************************************)
 EXTENDS CRNStore
 
-CONSTANTS MaxLive, Rules, TwoStores, SmallMenu
+CONSTANTS MaxLive, Rules, TwoStores, SmallMenu,
+          GenCollides   \* TRUE: the defect repaired by cc7cbb1 - a generated id may be one that is already stored (the old reaction is overwritten)
 
 VARIABLES st,     \* st[x] : store value, x \in {"A","B"}
           last    \* [c |-> command, err |-> result, x |-> target]
@@ -54,8 +55,9 @@ AddExplicit(x) == \E id \in IdMenu, rule \in Rules, l \in SideMenu, r \in SideMe
 
 AddGen(x) == \E rule \in Rules, l \in SideMenu, r \in SideMenu :
    IF l = <<>> /\ r = <<>> THEN Reject(x, Cmd("addgen", "", rule, l, r, "", FALSE), "ValueError")
-   ELSE \E id \in GenPool \ DOMAIN st[x].edges :
-        Do(x, Cmd("addgen", id, rule, l, r, "", FALSE), Ext(st[x].edges, id, Rxn(rule, l, r)), {})
+   ELSE \E id \in (IF GenCollides THEN GenPool ELSE GenPool \ DOMAIN st[x].edges) :
+        Do(x, Cmd("addgen", id, rule, l, r, "", FALSE),
+           [i \in DOMAIN st[x].edges \cup {id} |-> IF i = id THEN Rxn(rule, l, r) ELSE st[x].edges[i]], {})
 
 RemoveRxn(x) == \E id \in IdMenu \cup GenPool :
    LET c == Cmd("rmrxn", id, "", <<>>, <<>>, "", FALSE) IN
